@@ -12,18 +12,36 @@
 #include "platform/mdsdrv.h"
 #include <unistd.h>
 #include <sys/stat.h>
+#include <fcntl.h>
 #include <iostream>
 #include <fstream>
 
 namespace {
 
+// the library reports to std::cerr / std::cout and, in convert_macro_track, to stdout through
+// printf: keep the answer stream clean (file descriptor 1 is pointed at /dev/null meanwhile)
 struct Quiet_Streams
 {
 	std::streambuf* old_err;
 	std::streambuf* old_out;
 	std::ostringstream sink;
-	Quiet_Streams() { old_err = std::cerr.rdbuf(sink.rdbuf()); old_out = std::cout.rdbuf(sink.rdbuf()); }
-	~Quiet_Streams() { std::cerr.rdbuf(old_err); std::cout.rdbuf(old_out); }
+	int saved_fd;
+	Quiet_Streams()
+	{
+		old_err = std::cerr.rdbuf(sink.rdbuf());
+		old_out = std::cout.rdbuf(sink.rdbuf());
+		fflush(stdout);
+		saved_fd = dup(1);
+		int nul = open("/dev/null", O_WRONLY);
+		if(nul >= 0) { dup2(nul, 1); close(nul); }
+	}
+	~Quiet_Streams()
+	{
+		fflush(stdout);
+		if(saved_fd >= 0) { dup2(saved_fd, 1); close(saved_fd); }
+		std::cerr.rdbuf(old_err);
+		std::cout.rdbuf(old_out);
+	}
 };
 
 std::string unhex(const std::string& s)
